@@ -65,7 +65,7 @@ for base, fn, n, tr in ((16, "tokens_hex_string_to_int", 6, "quick"), (8, "token
 
 # the tokenizer contract carries "numeric literals are re-printed as signed decimals" (C04.lit obligation in the C16 harness)
 from shared_groups import tokens_get_group
-GROUPS.append(tokens_get_group("thorough"))
+GROUPS.append(tokens_get_group("quick"))
 LEVEL = "proof"
 TRUSTED = ["+ - * on int64_t wrap (two's complement) in the shipped binary as they do in CBMC's bit-vector semantics"]
 MANIFEST = {
